@@ -278,11 +278,13 @@ PROPS["C13"] = {
             "position k of the scenario's store-operation sequence (and two positions beyond it) x fault kind {error before effect, error "
             "after effect (lost reply), missing key, corrupted value at 4 offsets, truncation to 0/1/11/12/13/28/29/60 bytes}, singly "
             "(quick) and in pairs (thorough); outcome class, operation sequence, cookie set/cleared compared with the model; non-trivial "
-            "= every faulted run",
+            "= every faulted run; the readiness endpoint under reordered front chains (silence-ping-logging, renamed ping / ready paths, GCP "
+            "health checks, a ping user agent) with the store down, and a grid of 16 probe-looking paths x 5 user agents x store up / down "
+            "per variant compared with the model of the probe handlers (Model/Probe.v)",
     "assumptions": ["corrupted / truncated values are rejected by AES-GCM authentication or msgpack decoding (modelled: every fault on a "
                     "read makes the load fail); lock semantics of the in-memory client, not redislock"],
     "trusted_base": ["the fault-injecting store client in the driver"],
-    "level_text": "c13_store_entries_are_authenticated (the cipher sealing store entries, regenerated from ticket.makeCipher on every run, is AES-GCM: the premise 'a corrupted entry fails to unseal' of the fault model); c13_outage (every store operation of a request failing: nothing reaches the upstream, no session cookie is set, login and sign-out answer with the error page, readiness fails); for EVERY fault plan (a function from operation index to fault kind): c13_auth (upstream only if both reads were unfaulted "
+    "level_text": "c13_never_ready_when_down and c13_ready_path_not_shadowed (for EVERY configuration of ping / ready paths, ping agent and GCP checks and every request: with the store down nothing is answered by a successful readiness check, and the ready path - unless the operator listed it as a ping path - is answered 500 for every client that is not a ping agent), over the probe wiring regenerated from buildPreAuthChain / healthcheck.go / readynesscheck.go on every run (c13_probe_wiring_pinned, c13_gcp_literals); c13_store_entries_are_authenticated (the cipher sealing store entries, regenerated from ticket.makeCipher on every run, is AES-GCM: the premise 'a corrupted entry fails to unseal' of the fault model); c13_outage (every store operation of a request failing: nothing reaches the upstream, no session cookie is set, login and sign-out answer with the error page, readiness fails); for EVERY fault plan (a function from operation index to fault kind): c13_auth (upstream only if both reads were unfaulted "
                   "and the lock obtained without error), c13_faulted_read_unauth / _lock_ / _reload_, c13_cookie_callback and "
                   "c13_cookie_refresh (a session cookie only after a successful write), c13_signout, c13_ready, and the exact "
                   "characterisation of the strict clause c13_strict_characterisation with c13_strict_refuted_save (finding F8) are proved on "
